@@ -273,7 +273,7 @@ class NoisyDetector(Detector):
         output_field = output_field * self.flat_field
 
         # Adding read-out noise.
-        output_field = output_field + np.random.normal(loc=0, scale=self.read_noise, size=output_field.size)
+        output_field = output_field + np.random.normal(loc=0, scale=self.read_noise, size=output_field.shape)
 
         # Reset detector
         self.accumulated_charge = 0
